@@ -208,3 +208,27 @@ def table_exists(F):
 def fmt_val(v, keys=None):
     keys = keys or [k for k in PREDS if v.get(k)]
     return "{" + ",".join(k for k in keys if v.get(k)) + "}"
+
+
+def ambiguous(tn):
+    """first feasible valuation for which rows consistent with it store the rule in different lists
+    (routing depends on a decision outside the modelled predicates), with the unmodelled decisions"""
+    for v in valuations({"exists": 0}):
+        if not feasible(v):
+            continue
+        ds = set()
+        rows = []
+        for conds, dests, p in tn.rows:
+            if all(v.get(k) == val for k, val in conds.items()):
+                ds.add(dests)
+                rows.append(p)
+        if len(ds) > 1:
+            unk = set()
+            for p in rows:
+                for e, val in p.conds:
+                    if "NetworkFilterMaskHelper" not in e and ".tag)" not in e and "IntoIter" not in e \
+                            and e != "φ{false | true}" and "core::slice::iter(arg:network_filters)" not in e \
+                            and "get_id_without_badfilter" not in e and "Vec::is_empty(arg:network_filters)" not in e:
+                        unk.add(e[:140])
+            return v, ds, sorted(unk)
+    return None
